@@ -11,6 +11,7 @@ pub mod docspace;
 pub mod rangecheck;
 pub mod semacommon;
 pub mod seqspace;
+pub mod c01;
 pub mod c02;
 pub mod c03;
 pub mod c04;
@@ -20,6 +21,10 @@ pub mod c07;
 pub mod c08;
 pub mod c09;
 pub mod c10;
+pub mod c11;
+pub mod c12;
+pub mod c13;
+pub mod c14;
 pub mod c15;
 pub mod c16;
 pub mod c17;
